@@ -25,6 +25,8 @@ def pc_truth(pc, env):
 
 def check(ctx):
     p = ctx.prog
+    # all arithmetic behind this property happens in the numeric type T of the instantiation
+    single_precision(ctx, 'prec.single_type', ['hep::accumulator::', 'hep::accumulate', 'hep::multi_channel_refine_weights', 'hep::vegas_refine_pdf'], 1)
     ctx.assume('finite (x) finite stays finite: overflow of v*v or v*v*w for finite v is outside '
                'the premise of the property')
 
